@@ -788,9 +788,11 @@ static int vi_yank(int r1, int o1, int r2, int o2, int lnmode)
 	region = lbuf_region(xb, r1, lnmode ? 0 : o1, r2, lnmode ? -1 : o2);
 	reg_put(vi_ybuf, region, lnmode);
 	free(region);
+	if (lnmode && xrow == r1)
+		return 0;
 	xrow = r1;
 	xoff = lnmode ? xoff : o1;
-	return lnmode ? 0 : VC_COL;	/* the cursor may have moved to the start of the region */
+	return VC_COL;	/* the cursor may have moved to the start of the region */
 }
 
 static int vi_delete(int r1, int o1, int r2, int o2, int lnmode)
